@@ -291,7 +291,7 @@ class TracingDeque(collections.deque):
             TR.deque_counter += 1
             self.cid = TR.deque_counter
             self.tags = list(range(len(self)))
-            first = self[0] if len(self) else None
+            first = collections.deque.__getitem__(self, 0) if len(self) else None
             TR.log(e="new", cid=self.cid, n=len(self), width=int(np.size(first)) if first is not None else 0,
                    rows=[np.ravel(np.asarray(r, dtype=float)).tolist() for r in self] if len(self) <= 512 else None)
         else:
@@ -302,6 +302,20 @@ class TracingDeque(collections.deque):
         tag = self.tags.pop(0) if self.tags else -1
         TR.log(e="pop", cid=self.cid, row=tag, obj=id(self))
         return super().popleft()
+
+    def __getitem__(self, i):
+        # a row read without being removed is a consumption too (it can be read again)
+        if isinstance(i, int) and self.tags:
+            try:
+                TR.log(e="pop", cid=self.cid, row=self.tags[i], obj=id(self), peek=True)
+            except IndexError:
+                pass
+        return super().__getitem__(i)
+
+    def pop(self):
+        tag = self.tags.pop() if self.tags else -1
+        TR.log(e="pop", cid=self.cid, row=tag, obj=id(self), right=True)
+        return super().pop()
 
     def __reduce__(self):
         return (_rebuild_deque, (list(self), self.cid, list(self.tags)))
@@ -416,7 +430,7 @@ def canonical(events: list[dict], ambient: int = AMBIENT, rowpos: dict | None = 
                 else:
                     pre, claimed_normal = [], None
         elif e == "pop":
-            c.events.append([3, ev["cid"], ev["row"]])
+            c.events.append([8 if ev.get("peek") or ev.get("right") else 3, ev["cid"], ev["row"]])
             if cur is not None:
                 cur["rows"].append((ev["cid"], ev["row"]))
                 rp = c.rowpos.get((ev["cid"], ev["row"]))
